@@ -331,6 +331,20 @@ CHECKS["C20"] = dict(
     technique="TLA+ semantics of the documented formulae vs the generated code, executed by TLC over bounded inputs",
     design_ref="DESIGN.md section 4 C20", engine="FortranSem")
 
+CHECKS["C19"] = dict(
+    level="model_checking",
+    text=("267 generated tangent-linear kernels (689 kernel x active-set calls; assignments and increments "
+          "with passive coefficients, stencil offsets, loops with every step +-1,+-2,+-3,m and compound "
+          "bounds incl. zero-trip, nests, IF on passive data) go through the real PSyAD; accepted adjoints are "
+          "read back and exported. SemAdjoint.tla computes, for every passive valuation, the matrix of the TL "
+          "code and of the adjoint column by column from unit vectors with exact rationals (after checking "
+          "that the TL code is defined, linear and leaves passives unchanged) and decides Transpose, "
+          "PassiveUnchanged and NoNewUndefined."),
+    note=SEM_NOTE + " The generated test harness is generated but not interpreted (needs the LFRic runtime and "
+         "random_number). Three genuine defect shapes in findings.d/C19.json.",
+    technique="TLA+ exact linear-map comparison executed by TLC (translation validation of the real PSyAD output)",
+    design_ref="DESIGN.md section 4 C19", engine="FortranSem")
+
 NOT_YET = {}
 
 ALL = [f"C{i:02d}" for i in range(1, 30)]
